@@ -111,21 +111,33 @@ Definition replay_prefix_verdict (l : list (lop * list obs)) (pending : option l
 
 (* where an out-of-scope id enters: the first read of lookup_cid, or the first declare answered from node_mapping, (operation
    number, node, name) whose result is not in the visible set of the pipeline under construction at that moment *)
-Definition read_scope (s s' : lstate) (b : obs) : option (N * option str) :=
+(* where an out-of-scope id lives: 0 = in a relation that is already closed (a table of table_buffer: an id of a sub-pipeline
+   that its closing Select did not export, so that no redirect replaced it -- the shape of finding F7; or of another let-table);
+   1 = in the pipeline under construction (an earlier Select / Aggregate of it dropped the id: F1, F9);
+   2 = in an enclosing pipeline that is suspended (an id of the outer pipeline used inside a sub-pipeline) *)
+Definition id_home (s : lstate) (c : cid) : N :=
+  if memN c (Tdefs (tables s)) then 0
+  else match frames s with
+       | (_, p) :: _ => if memN c (pipeline_defs p) then 1 else 2
+       | [] => 2
+       end.
+
+Definition read_scope (s s' : lstate) (b : obs) : option (N * (option str * N)) :=
   match b with
   | BLookup post node name (Some c) =>
-      if memN c (fvis (frames (if post then s' else s))) then None else Some (node, name)
+      let st := if post then s' else s in
+      if memN c (fvis (frames st)) then None else Some (node, (name, id_home st c))
   | BCid node c =>
       (* a declare answered from node_mapping (`cached`) or aliased to a column: the id it hands back; a new Compute
          (next_cid moved) is in scope by construction *)
-      if N.eqb (next_cid s') (next_cid s) then (if memN c (fvis (frames s)) then None else Some (node, None)) else None
+      if N.eqb (next_cid s') (next_cid s) then (if memN c (fvis (frames s)) then None else Some (node, (None, id_home s c))) else None
   | _ => None
   end.
 
 Fixpoint first_some {A B} (f : A -> option B) (l : list A) : option B :=
   match l with [] => None | x :: l' => match f x with Some y => Some y | None => first_some f l' end end.
 
-Fixpoint first_out_of_scope_read (s : lstate) (l : list (lop * list obs)) (k : N) : option (N * (N * option str)) :=
+Fixpoint first_out_of_scope_read (s : lstate) (l : list (lop * list obs)) (k : N) : option (N * (N * (option str * N))) :=
   match l with
   | [] => None
   | (lo, bs) :: l' =>
@@ -137,7 +149,7 @@ Fixpoint first_out_of_scope_read (s : lstate) (l : list (lop * list obs)) (k : N
                                    (* the closing Select: push_select reads node_mapping directly for `All` columns *)
                                    if subsetb (map snd (op_frame o)) (fvis (frames s))
                                    then first_out_of_scope_read s' l' (k + 1)
-                                   else Some (k, (0, None))
+                                   else Some (k, (0, (None, 3)))
                                end
                   | None => None
                   end
